@@ -21,8 +21,8 @@ PID = 'C11'
 
 TIERS = {
     #            4-site meshes, singles 1-in-Thin, lines, twins, pairs (free riders), 5-site meshes, Thin5, B3 seeded, CORONET
-    'quick': dict(meshes4=130, thin=20, lines=12, twins=6, pairs=12, meshes5=0, thin5=0, b3=40, conus=14, glob=0),
-    'thorough': dict(meshes4=None, thin=40, lines=6, twins=3, pairs=5, meshes5=150, thin5=15, b3=300, conus=60, glob=25),
+    'quick': dict(meshes4=130, thin=20, lines=12, twins=6, pairs=12, meshes5=0, thin5=0, grids=3, grid_reqs=16, b3=40, conus=14, glob=0),
+    'thorough': dict(meshes4=None, thin=40, lines=6, twins=3, pairs=5, meshes5=150, thin5=15, grids=10, grid_reqs=40, b3=300, conus=60, glob=25),
 }
 
 
@@ -73,9 +73,22 @@ def run(chk):
     # the generation (a TLC run) goes on while B3 is recorded here, in the main thread (time limits need it);
     # B3 is judged in the same TLC pass as B2
     gen_run = ru.background(lambda: ru.generate(chk, parts[0], 'c11-gen4', workers=ru.share(2), **gen))
+    # 4 x 4 lattices: include lists of 2 or 3 ROADMs that force snake-shaped routes (own generation run, same replay)
+    grid_run = ru.background(lambda: ru.generate(
+        chk, [200002 + 8 * (salt % 1000 + i) for i in range(p['grids'])], 'c11-grid',     # (ids without Raman spans)
+        workers=ru.share(3), grid=True,
+        NSites=16, GridCols=4, LinePer=p['grid_reqs'], Salt=salt))
     recorded = b3(chk, p, random.Random(chk.seed + 3))
     jobs = gen_run.result()
+    jobs.update(grid_run.result())
     bg = [ru.background(small), ru.background(four)]
+    if all4:       # the clauses on the model's answers for lattice batches as well
+        gids = [200002 + 8 * (salt % 1000 + i) for i in range(3)]
+        bg.append(ru.background(lambda: (
+            'MC_Routing 4 x 4 lattices: corner-to-corner requests, include lists of 2 or 3 ROADMs',
+            tlc.run('MC_Routing', cfg_text=ru.mc_cfg(grid=True, sanity=False, UseSample=True, NSites=16, GridCols=4,
+                                                     LinePer=20, Salt=salt),
+                    extra_modules={'RoutingSample': ru.sample_module(gids)}, timeout=3000, tag='c11-mcgrid', workers=2))))
     chk.exhaustive = True
     timing = dict(first_generation_and_b3_recording=round(time.time() - t0, 1))
     t1 = time.time()
@@ -94,6 +107,8 @@ def run(chk):
         chk.cov['b2_5sites'] = stats5
         timing['b2_5sites'] = round(time.time() - t1, 1)
     # non-vacuity: every verdict of the specification must have been exercised against the code
+    if not stats.get('routes_behind_100_candidates'):
+        raise Machinery('vacuous replay: no request whose route lies behind 100 shorter loop-free routes (lattices)')
     for v in ('ROUTED', 'LOOSE_DROPPED', 'NO_PATH', 'NO_PATH_WITH_CONSTRAINT', 'UNDECIDED'):
         if not stats['verdicts'].get(v):
             raise Machinery(f'vacuous replay: no case with oracle verdict {v}')
@@ -141,8 +156,8 @@ def b3(chk, p, rng):
     for k, b in enumerate(batches):
         e = bench.run_batch(b, bidir=bool(k % 2), pick=k)
         if 'exc' in e:
-            chk.violation(f'B3|exception|meshV2|{ru.kind(b)}|inc={"/".join(ru.shape(r) for r in b["reqs"])}|'
-                          f'{e["exc"].split(":")[0]}', dict(batch=b, exception=e['exc'], traceback=e['tb']))
+            chk.violation(f'B3|exception|{e["exc"].split(":")[0]}|{e.get("where", "?")}',
+                              dict(network='meshV2', batch=b, exception=e['exc'], traceback=e['tb']))
             continue
         evs.append(e)
         meta.append(dict(b, info={}))
@@ -164,8 +179,8 @@ def b3(chk, p, rng):
                 skipped += 1
                 continue
             if 'exc' in e:
-                chk.violation(f'B3|exception|CORONET|{ru.kind(b)}|inc={"/".join(ru.shape(r) for r in b["reqs"])}|'
-                              f'{e["exc"].split(":")[0]}', dict(batch=b, exception=e['exc'], traceback=e['tb']))
+                chk.violation(f'B3|exception|{e["exc"].split(":")[0]}|{e.get("where", "?")}',
+                              dict(network='CORONET', batch=b, exception=e['exc'], traceback=e['tb']))
                 continue
             evs.append(e)
             meta.append(dict(b, info={}))
